@@ -665,6 +665,10 @@ func (interp *Interpreter) cfg(root *node, sc *scope, importPath, pkgName string
 				if typ, err = nodeType(interp, sc, c.lastChild()); err != nil {
 					return false
 				}
+				if len(c.child) == 1 {
+					// The parameter has no name: it still receives an argument.
+					sc.add(typ)
+				}
 				for _, cc := range c.child[:len(c.child)-1] {
 					sc.sym[cc.ident] = &symbol{index: sc.add(typ), kind: varSym, typ: typ}
 				}
